@@ -4,9 +4,14 @@
 EXTENDS TZ, Instant, TLC, Json, IOUtils
 Tr == ndJsonDeserialize(IOEnv.TRACE)
 Ep(a) == (DaysFromCivil(a[1], a[2], a[3]) * 86400) + (a[4] * 3600) + (a[5] * 60) + a[6]
+(* instants the day arithmetic below can take; a result that is no such instant cannot be the expected one *)
+Sane(a) == a[1] \in 1900..2039 /\ a[2] \in 1..12 /\ a[3] \in 1..31 /\ a[4] \in 0..24 /\ a[5] \in 0..60 /\ a[6] \in 0..60
+           /\ DaysFromCivil(a[1], a[2], a[3]) \in -24854..24853        \* seconds since 1970 within 32 bits
 Verdict(r) ==
   IF r.e = "Zone" THEN "skip"
   ELSE IF "crash" \in DOMAIN r THEN "bad"
+  ELSE IF ~Sane(r.a) THEN "skip"
+  ELSE IF ~Sane(r.r) THEN "bad"
   ELSE LET z == Tr[r.z] a == Ep(r.a) IN
     CASE r.e = "ToLoc" ->
            IF Ep(r.r) = UTCToLocal(z, a) /\ r.off = OffAt(z, a) THEN "ok" ELSE "bad"
